@@ -64,6 +64,10 @@ func body(s *simrt.Sim, tier string) {
 			v.WrapAppend = 1 + s.Choose(7, "wrapappendn")
 			desc += fmt.Sprintf(", the wrap function frames the key in place with append(key, %d bytes...)", v.WrapAppend)
 		}
+		if s.Choose(3, "vaultcache") == 0 {
+			v.Cached = true
+			desc += ", vault client keeps unwrapped keys"
+		}
 		opts.WrapKeyFn = v.Wrap
 		src := &simio.Reader{C: s, Data: pt, FailAt: -1}
 		enccommon.Chunking(s, src)
@@ -137,6 +141,21 @@ func body(s *simrt.Sim, tier string) {
 		}
 		if len(v.UnwrapCalls) != 1 || v.UnwrapCalls[0].KeyName != wantName || v.UnwrapCalls[0].Algorithm != alg.Canonical {
 			s.Fail("unwrap-call", fmt.Sprintf("%s: unwrap callback saw %+v, expected key %q algorithm %s", desc, v.UnwrapCalls, wantName, alg.Canonical))
+		}
+		if v.Cached {
+			// the same document a second time, through a vault client that keeps unwrapped keys: Decrypt inverts
+			// Encrypt every time, not only the first
+			dsrc2 := &simio.Reader{C: s, Data: doc, FailAt: -1}
+			enccommon.Chunking(s, dsrc2)
+			decR2, err := enc.Decrypt(dsrc2, enc.DecryptOptions{UnwrapKeyFn: v.Unwrapper(keyName), KeyName: override})
+			if err != nil {
+				s.Fail("second-decrypt", fmt.Sprintf("%s: decrypting the same document again (vault with a key cache): %v", desc, err))
+				return
+			}
+			back2, rerr2 := enccommon.ReadAllChunked(s, decR2)
+			if rerr2 != io.EOF || !bytes.Equal(back2, pt) {
+				s.Fail("second-decrypt", fmt.Sprintf("%s: decrypting the same document again (vault with a key cache) gave %d bytes and %v", desc, len(back2), rerr2))
+			}
 		}
 		return
 	}
